@@ -1,5 +1,6 @@
 import IoraModel.Lemmas.Teardown
 import IoraModel.Lemmas.EngineQueue
+import IoraModel.Lemmas.FlushFrames
 import IoraModel.Model.TsyncFacts
 import IoraModel.Model.TeardownFacts
 /-!
@@ -19,6 +20,11 @@ the destructor's wait has completed; a thread inside `stop()` holds a reference,
   engines; `_running` cleared by the stop CAS, by detachForTermination or by the Shutdown command; restart),
   T5 callbacks by counting: confined to I/O-thread steps / the flusher's own loop step, at most one close callback per session,
   none after `stop()` returned, none after `Impl` is gone, T6 a synchronous call made from a callback on the I/O thread is refused.
+
+* over `Model/FlushFrames.lean` (ONE application thread, ANY number of transports, the per-thread `FlushFrame` stack with arbitrary
+  cross-transport nesting, the walk of `releaseOwnFlushes` taken from the regenerated skeleton): `releaseOwnFlushes_exact` (for every
+  stack the walk releases every frame of this `Impl` and touches no frame of another), `T2_nested_flushes`, `T1_nested_completes`,
+  and `takeWhile_walk_deadlocks` (a take-while walk leaves the destructor blocked for ever in the two-legged relay program).
 
 What a Lean model cannot exhibit and is therefore NOT claimed: use-after-free and data races of the real C++ object graph, and
 wall-clock bounds ("within a bounded time" is proved as a bound on steps).  Those parts are explored by the DetSched/ASan/TSan
@@ -54,13 +60,13 @@ theorem teardown_skeleton_conforms :
     TeardownFacts.stopIsCasEnqueueJoin = true ∧ TeardownFacts.detachClearsRunning = true ∧
     TeardownFacts.selfDestructStored = true ∧ TeardownFacts.epilogueRunsDeleterLast = true ∧
     TeardownFacts.loopsExitIntoDrain = true ∧ TeardownFacts.addListenerRejectsBeforeWaiting = true ∧
-    TeardownFacts.parkGuardsWholeCall = true ∧
+    TeardownFacts.parkGuardsWholeCall = true ∧ FlushFrames.walkFilters = true ∧
     nrIo = true ∧ nrStopped = true ∧ nrNormal = false ∧
     gated "activeReceives" = true ∧ gated "activeConnects" = true ∧ gated "activeFlushes" = true ∧
     ioBranchIdentityOnly = true ∧ (∀ op, guardIdentityOnly op = true) := by
   refine ⟨by decide, by decide, by decide, by decide, by decide, by decide, by decide, by decide, by decide, by decide, by decide,
     by decide, by decide, by decide, by decide, by decide, by decide, by decide, by decide, by decide, by decide, by decide,
-    by decide, by decide, by decide, by decide, guard_ok⟩
+    by decide, by decide, by decide, by decide, by decide, guard_ok⟩
 
 /-- reachable states: any number of application threads about to make a receive / connect / flush call, any set of open
 sessions, any disciplined schedule -/
@@ -272,6 +278,86 @@ theorem T6_io_thread_guards (s : State) (op : SyncOp) :
   refine ⟨fun hf => ?_, fun hr => (reach_inv hr).2.SB⟩
   simp only [step, doIoSyncCall, hf, guard_ok, Bool.true_or, if_true]
   exact ⟨trivial, by unfold touch; split <;> rfl⟩
+
+/-! ### nested flushes over several transports (`Model/FlushFrames.lean`) -/
+
+/-- states of the frame model reachable from "nothing in progress", with any number of callers of other threads inside each
+transport, by any schedule respecting the contract (no call on a transport whose last reference was dropped; dropped once) -/
+def FReach (s : FlushFrames.State) : Prop :=
+  ∃ others steps, FlushFrames.Disciplined (FlushFrames.mk others) steps ∧ s = FlushFrames.run (FlushFrames.mk others) steps
+
+theorem freach_inv {s : FlushFrames.State} (h : FReach s) : FlushFrames.Inv s := by
+  obtain ⟨others, steps, hd, rfl⟩ := h
+  exact FlushFrames.run_inv steps _ (FlushFrames.Inv_mk others) hd
+
+/-- **T2 over several transports, arbitrary nesting on one thread.** ONE application thread nests `setReadMode(Async)` flushes of
+any number of transports in any order and depth (a data callback starts the next flush) and drops the last reference of any of
+them inside any callback. In every reachable state: `Impl` is never touched after its deletion; every frame on the thread's stack
+belongs to a live `Impl`; `activeFlushes` of each transport is exactly the number of its frames with a live guard; once the last
+reference of `d` is dropped NONE of this thread's frames is counted for `d` any more (the walk of `releaseOwnFlushes`, as
+regenerated, releases ALL of them — so the gate of `d` waits for other threads only); an orphaned frame is the OUTERMOST frame of
+its transport (every inner frame of it has unwound, through `Impl`, before `~FlushFrame` deletes it); only released transports are
+deleted; and when nothing is in progress every released transport HAS been deleted. -/
+theorem T2_nested_flushes (s : FlushFrames.State) (hr : FReach s) :
+    s.uaf = false ∧ (∀ f ∈ s.stack, s.alive f.impl = true) ∧ (∀ d, s.flushes d = FlushFrames.cnt d s.stack) ∧
+    (∀ d, s.released d = true → s.flushes d = 0) ∧ FlushFrames.orphOK s.stack ∧
+    (∀ d, s.alive d = false → s.released d = true) ∧
+    (s.dtor = none → s.stack = [] → ∀ d, s.released d = true → s.alive d = false) := by
+  have I := freach_inv hr
+  exact ⟨I.A, I.B, I.C, fun d h => by rw [I.C d]; exact I.D d h, I.E, I.F, fun h1 h2 d h3 => FlushFrames.released_deleted I h1 h2 d h3⟩
+
+/-- **T1 over several transports (no dead end).** From every reachable state of the frame model a schedule respecting the contract,
+at most (callers of other threads inside the transport being destroyed) + 1 + (stack depth) steps long, ends with the destructor
+returned, every flush returned, nothing touched after deletion and every released transport deleted. (Existential, as
+T1_teardown_completes.) -/
+theorem T1_nested_completes (s : FlushFrames.State) (hr : FReach s) :
+    ∃ steps : List FlushFrames.Step, FlushFrames.Disciplined s steps ∧
+      steps.length ≤ (match s.dtor with | some (d, _) => s.others d + 1 | none => 0) + s.stack.length ∧
+      (FlushFrames.run s steps).dtor = none ∧ (FlushFrames.run s steps).stack = [] ∧ (FlushFrames.run s steps).uaf = false ∧
+      ∀ d, (FlushFrames.run s steps).released d = true → (FlushFrames.run s steps).alive d = false := by
+  obtain ⟨steps, h1, h2, h3, h4, h5⟩ := FlushFrames.completes (freach_inv hr)
+  exact ⟨steps, h1, h2, h3, h4, h5.A, fun d hd => FlushFrames.released_deleted h5 h3 h4 d hd⟩
+
+/-- **The walk of `releaseOwnFlushes`, for EVERY stack.** Whatever frames are on the calling thread's stack (any transports, any
+nesting, guards alive or already released), the walk as regenerated from the source releases the guard of EVERY frame of this
+`Impl` and leaves every frame of another `Impl` exactly as it was, in place (the stack after the walk is the stack mapped by
+"`impl == d` ⇒ guard released, else unchanged"); `activeFlushes` drops by exactly the number of this transport's live guards on the
+stack; and the destructor takes the flusher branch iff some frame of this `Impl` is ANYWHERE on the stack. -/
+theorem releaseOwnFlushes_exact (d : Nat) (l : List FlushFrames.Frame) :
+    FlushFrames.resetGuards (FlushFrames.mask FlushFrames.walkFilters d l) l =
+      l.map (fun f => if f.impl = d then { f with guard := false } else f) ∧
+    FlushFrames.liveMatched (FlushFrames.mask FlushFrames.walkFilters d l) l = FlushFrames.cnt d l ∧
+    (FlushFrames.mask FlushFrames.walkFilters d l).any id = l.any (fun f => decide (f.impl = d)) := by
+  rw [FlushFrames.walk_filters]
+  exact ⟨FlushFrames.reset_eq_map l, FlushFrames.live_eq_cnt l, FlushFrames.mask_any l⟩
+
+/-- a non-trivial stack: [U(live), D(live), U(released), D(live)] walked for D -/
+example : FlushFrames.resetGuards (FlushFrames.mask FlushFrames.walkFilters 0 [{ impl := 1 }, { impl := 0 }, { impl := 1, guard := false }, { impl := 0 }])
+      [{ impl := 1 }, { impl := 0 }, { impl := 1, guard := false }, { impl := 0 }] =
+    [{ impl := 1 }, { impl := 0, guard := false }, { impl := 1, guard := false }, { impl := 0, guard := false }] := by decide
+/-- the take-while walk violates it on the two-frame stack [U, D]: D's frame keeps its guard and the ordinary branch is taken -/
+example : FlushFrames.resetGuards (FlushFrames.mask false 0 [{ impl := 1 }, { impl := 0 }]) [{ impl := 1 }, { impl := 0 }] =
+      [{ impl := 1 }, { impl := 0 }] ∧ (FlushFrames.mask false 0 [{ impl := 1 }, { impl := 0 }]).any id = false := by decide
+
+/-- **The filter is necessary.** With the take-while walk (`f != nullptr && f->impl == this` in the loop condition) the relay
+program — D flushes, its callback flushes U, U's callback drops the last reference of D — respects the contract and leaves
+`~Transport(D)` blocked for EVERY continuation: whatever the thread or other threads do next, however often the predicate is
+re-checked, the destructor does not return (it waits for D's own outer flush, which it did not release). -/
+theorem takeWhile_walk_deadlocks (steps : List FlushFrames.Step) :
+    (FlushFrames.runW false (FlushFrames.runW false (FlushFrames.mk fun _ => 0) FlushFrames.relay) steps).dtor = some (0, false) :=
+  FlushFrames.takeWhile_stuck steps
+
+/-- … while the walk as written completes the same program: the destructor returns, U's flush returns true, D's flush returns
+false and D's `Impl` is deleted when D's (outermost) frame unwinds -/
+example : FlushFrames.disciplinedB (FlushFrames.mk fun _ => 0) (FlushFrames.relay ++ [.dtorWake, .pop, .pop]) = true := by decide
+example : (FlushFrames.run (FlushFrames.mk fun _ => 0) (FlushFrames.relay ++ [.dtorWake, .pop, .pop])).log =
+    [.dtorReturned 0, .ret 1 true, .ret 0 false, .deleted 0] := by decide
+/-- [D, U, D]: the inner D frame is released too but only the OUTER one deletes `Impl` -/
+example : (FlushFrames.run (FlushFrames.mk fun _ => 0) [.push 0, .push 1, .push 0, .release 0, .dtorWake, .pop, .pop, .pop]).log =
+    [.dtorReturned 0, .ret 0 false, .ret 1 true, .ret 0 false, .deleted 0] := by decide
+/-- control: U released inside D's callback while U has no frame — the ordinary branch, `~Impl` at once -/
+example : (FlushFrames.run (FlushFrames.mk fun _ => 0) [.push 0, .release 1, .dtorWake, .pop]).log =
+    [.deleted 1, .dtorReturned 1, .ret 0 true] := by decide
 
 /-! ### non-vacuity -/
 /-- a receiver on an open session, a connector and a flusher, destroyed on the NORMAL path: the schedule is disciplined, every
